@@ -102,8 +102,14 @@ func MakeConfig(seed uint64, profile, tier string) SwarmConfig {
 		emph("trader", "lp", "donor", "arb")
 	case "C02":
 		emph("lp", "levlp", "liquidator")
+		if r.IntN(4) == 0 {
+			c.Rate["squatter"] = 0.5
+		}
 	case "C06", "C07":
 		emph("lender", "levlp", "liquidator")
+		if profile == "C07" && r.IntN(2) == 0 {
+			emph("govchaos") // raises the leveraged-LP utilisation limit so that the vault's own cap binds
+		}
 	case "C08":
 		emph("levlp", "liquidator", "lender")
 		if r.IntN(2) == 0 {
